@@ -181,6 +181,43 @@ func VerifC08Close(v *verifrt.T) {
 	v.Observe("held", uint64(heldBefore))
 }
 
+// VerifC08CloseMany: connection A holds three subscriptions with arbitrary two-word channels
+// (so the words may fold to the same per-connection counter bucket pairwise or all three),
+// optionally takes one of them back, and ends: nothing of A is left in the index, one
+// 'unsubscribe' notification per subscription still held, B untouched. A fixed-shape history
+// one operation longer than the quick bound of VerifC08Close.
+func VerifC08CloseMany(v *verifrt.T) {
+	e := c08new(v)
+	a, asock := hconn(e.svc, 0)
+	b, _ := hconn(e.svc, 1)
+	e.svc.connections = 2
+	bssid := message.Ssid{8, 1, 2} // another contract: B only witnesses that nothing else is touched
+	e.ps.Subscribe(b, &event.Subscription{Conn: b.luid, Ssid: bssid, Channel: []byte("b/")})
+	a.onConnect(&mqtt.Connect{Username: []byte("alice")})
+	var ops []c08op
+	for i := 0; i < 3; i++ {
+		f := message.Ssid{7, v.U32("w", i, 0), v.U32("w", i, 1)}
+		ops = append(ops, c08op{kind: 0, f: f})
+		e.ps.Subscribe(a, &event.Subscription{Conn: a.luid, Ssid: f, Channel: []byte("x/")})
+	}
+	if u := v.Choice(2, "takes-back") * 3; u < 3 { // 0: the first one is taken back; 1 (u=3): none
+		ops = append(ops, c08op{kind: 1, f: ops[u].f})
+		e.ps.Unsubscribe(a, &event.Subscription{Conn: a.luid, Ssid: ops[u].f, Channel: []byte("x/")})
+	}
+	wantUnsubs := c08held(ops)
+	heldBefore := e.trie.VerifHolds(a)
+	unsubsBefore := len(e.notify.unsubs)
+	v.Assert(uint32(heldBefore) == wantUnsubs, "C08.many.index-matches-held-subscriptions")
+	a.Close()
+	v.Reach("closed-with-three")
+	v.Assert(e.trie.VerifHolds(a) == 0, "C08.many.no-subscription-left")
+	v.Assert(uint32(len(e.notify.unsubs)-unsubsBefore) == wantUnsubs, "C08.many.one-unsubscribe-notification-per-held-subscription")
+	found := e.trie.Lookup(bssid, nil)
+	v.Assert(found.Contains(b) && e.trie.VerifHolds(b) == 1, "C08.many.others-untouched")
+	v.Assert(asock.closed, "C08.many.socket-closed")
+	v.Observe("held", uint64(heldBefore))
+}
+
 // VerifC08Process: the real Process loop on a client byte stream (CONNECT, SUBSCRIBE,
 // SUBSCRIBE|UNSUBSCRIBE built with the real encoder) that is cut at any byte offset,
 // ends with DISCONNECT, or carries one corrupted byte.
